@@ -638,6 +638,7 @@ func TestVerifC04(t *testing.T) {
 	runFam(t, r, "overshoot", r.N(120, 2500)/light())
 	runFam(t, r, "padded-long", r.N(16, 300)/light())
 	runHuge(t, r, r.N(40, 800)/light())
+	runParked(t, r, r.N(24, 500)/light())
 	r.Finish(vlib.Spec{
 		Level: "exploration",
 		Rule:  "scripted sender against a real server (handler reading) or client (app receiving), static windows {64K..1MB} or BDP-dynamic with pings acked at script-chosen points; 1-4 streams, messages 0..4x window, readers that stall until released, DATA frames of 1..16384 bytes with padding 0..255, always within the receive-window ledger (family within/padded-long, the latter 400-800 padded sends) or exceeding one stream window by k>=1 bytes (family overshoot); oracles: no FLOW_CONTROL rejection/GOAWAY/close without a real overshoot, advertised windows <= 2^31-1, at every quiescent point a blocked reader that consumed everything sees stream and connection windows restored to >= limit-limit/4, all bytes delivered intact; non-trivial = a blocked-reader check was taken; distinct = (role, static|bdp|bdp-grown, padding, overshoots, frame-count bucket)",
